@@ -13,10 +13,10 @@ from . import loops
 PROPERTY = "C01"
 LEVEL = "proof"
 TASKS = loops.tasks_for({"C01"})
-TRUSTED = ["Gymnasium Env API contract (reset/step typestate, pyvc/lib/gym_model.py)"]
+TRUSTED = ["Gymnasium Env API contract (reset/step typestate, pyvc/lib/gym_model.py)"] + loops.EXTRA_TRUSTED
 ASSUMPTIONS = [
     "callees of the loop (update routines, samplers, loggers, buffers) cannot rebind the loop's locals and do not mutate observation arrays in place (frame contracts of the stubs)",
     "value-preserving casts (int(), np.asarray, jnp.asarray) are the identity on stored values (DESIGN 4.2)",
-]
-NOT_COVERED = ["that the buffer then keeps the transition unmodified is C02; PPO's temporary value-bootstrap observation is C07"]
-REPLAY = {"": "loops_native"}
+] + loops.EXTRA_ASSUMPTIONS
+NOT_COVERED = ["that the buffer then keeps the transition unmodified is C02; PPO's temporary value-bootstrap observation is C07"] + loops.EXTRA_NOT_COVERED
+REPLAY = loops.REPLAY  # loops_native (replay-buffer family) / loops_extra_native (tabular, on-policy collectors, rollout helper)
